@@ -147,7 +147,7 @@ func (c *Conn) handle(cmd string, arg string) {
 	case "STARTTLS":
 		c.handleStartTLS()
 	default:
-		msg := fmt.Sprintf("Syntax errors, %v command unrecognized", cmd)
+		msg := fmt.Sprintf("Syntax errors, %v command unrecognized", printable(cmd))
 		c.protocolError(500, EnhancedCode{5, 5, 2}, msg)
 	}
 }
@@ -265,7 +265,7 @@ func (c *Conn) handleGreet(enhanced bool, arg string) {
 	}
 
 	if !enhanced {
-		c.writeResponse(250, EnhancedCode{2, 0, 0}, fmt.Sprintf("Hello %s", domain))
+		c.writeResponse(250, EnhancedCode{2, 0, 0}, fmt.Sprintf("Hello %s", printable(domain)))
 		return
 	}
 
@@ -314,7 +314,7 @@ func (c *Conn) handleGreet(enhanced bool, arg string) {
 		caps = append(caps, "RRVS")
 	}
 
-	args := []string{"Hello " + domain}
+	args := []string{"Hello " + printable(domain)}
 	args = append(args, caps...)
 	c.writeResponse(250, NoEnhancedCode, args...)
 }
@@ -449,7 +449,7 @@ func (c *Conn) handleMail(arg string) {
 		return
 	}
 
-	c.writeResponse(250, EnhancedCode{2, 0, 0}, fmt.Sprintf("Roger, accepting mail from <%v>", from))
+	c.writeResponse(250, EnhancedCode{2, 0, 0}, fmt.Sprintf("Roger, accepting mail from <%v>", printable(from)))
 	c.fromReceived = true
 }
 
@@ -761,7 +761,7 @@ func (c *Conn) handleRcpt(arg string) {
 		return
 	}
 	c.recipients = append(c.recipients, recipient)
-	c.writeResponse(250, EnhancedCode{2, 0, 0}, fmt.Sprintf("I'll make sure <%v> gets this", recipient))
+	c.writeResponse(250, EnhancedCode{2, 0, 0}, fmt.Sprintf("I'll make sure <%v> gets this", printable(recipient)))
 }
 
 func checkNotifySet(values []DSNNotify) error {
@@ -1102,12 +1102,12 @@ func (c *Conn) handleBdat(arg string) {
 				c.bdatStatus.fillRemaining(err)
 				for i, rcpt := range c.recipients {
 					code, enchCode, msg := dataErrorToStatus(<-c.bdatStatus.status[i])
-					c.writeResponse(code, enchCode, "<"+rcpt+"> "+msg)
+					c.writeResponse(code, enchCode, "<"+printable(rcpt)+"> "+msg)
 				}
 			default:
 				code, enchCode, msg := dataErrorToStatus(err)
 				for _, rcpt := range c.recipients {
-					c.writeResponse(code, enchCode, "<"+rcpt+"> "+msg)
+					c.writeResponse(code, enchCode, "<"+printable(rcpt)+"> "+msg)
 				}
 			}
 		} else {
@@ -1138,7 +1138,7 @@ func (c *Conn) handleBdat(arg string) {
 			c.bdatStatus.fillRemaining(err)
 			for i, rcpt := range c.recipients {
 				code, enchCode, msg := dataErrorToStatus(<-c.bdatStatus.status[i])
-				c.writeResponse(code, enchCode, "<"+rcpt+"> "+msg)
+				c.writeResponse(code, enchCode, "<"+printable(rcpt)+"> "+msg)
 			}
 		} else {
 			c.writeResponse(dataErrorToStatus(err))
@@ -1279,7 +1279,7 @@ func (c *Conn) handleDataLMTP() {
 
 	for i, rcpt := range c.recipients {
 		code, enchCode, msg := dataErrorToStatus(<-status.status[i])
-		c.writeResponse(code, enchCode, "<"+rcpt+"> "+msg)
+		c.writeResponse(code, enchCode, "<"+printable(rcpt)+"> "+msg)
 	}
 
 	// If done gets false, the panic occured in LMTPData and the connection
@@ -1312,6 +1312,25 @@ func (c *Conn) greet() {
 		protocol = "LMTP"
 	}
 	c.writeResponse(220, NoEnhancedCode, fmt.Sprintf("%v %s Service Ready", c.server.Domain, protocol))
+}
+
+// printable returns s, which comes from the peer (a command word, a domain,
+// an address) and is about to be quoted in a reply, with every octet that may
+// not occur in the text of a reply line (RFC 5321 section 4.2: control
+// characters other than HT, DEL) replaced by a question mark.
+func printable(s string) string {
+	for i := 0; i < len(s); i++ {
+		if c := s[i]; (c < ' ' && c != '\t') || c == 0x7f {
+			b := []byte(s)
+			for j := i; j < len(b); j++ {
+				if c := b[j]; (c < ' ' && c != '\t') || c == 0x7f {
+					b[j] = '?'
+				}
+			}
+			return string(b)
+		}
+	}
+	return s
 }
 
 func (c *Conn) writeResponse(code int, enhCode EnhancedCode, text ...string) {
